@@ -4,6 +4,7 @@ package interp
 
 import (
 	"fmt"
+	"strconv"
 	"go/types"
 	"sort"
 	"strings"
@@ -54,6 +55,12 @@ func init() {
 		"IteInt64":   verifIte,
 		"IteUint64":  verifIte,
 		"Concrete":   verifConcrete,
+		"Itoa": func(fr *frame, args []value) value {
+			if s, ok := args[0].(sym); ok {
+				return symDecimal{s}
+			}
+			return strconv.FormatInt(asInt64(args[0]), 10)
+		},
 		"ConcreteString": func(fr *frame, args []value) value { return fr.i.concretizeStr(args[0], "verif.ConcreteString") },
 		"ExploreSchedules": func(fr *frame, args []value) value {
 			fr.i.sched.explore = true
@@ -144,6 +151,7 @@ func verifBytes(fr *frame, args []value) value {
 		full := fmt.Sprintf("%s[%d]", base, k)
 		t := i.ps.tt.mkVar(smtIdent(full), bvSort(8))
 		i.ps.vars = append(i.ps.vars, inputVar{Name: full, Kind: "uint8", t: t})
+		i.solver.define(t)
 		r[k] = sym{t, types.Uint8}
 	}
 	return r
@@ -397,6 +405,31 @@ func (i *interpreter) renderObserved(v value) string {
 		return fmt.Sprint(v)
 	}
 	return fmt.Sprintf("<%T>", v)
+}
+
+// defineObserved makes every symbolic observed term known to the solver
+// (to be called before the check-sat whose model is read).
+func (i *interpreter) defineObserved() {
+	var walk func(v value)
+	walk = func(v value) {
+		switch v := v.(type) {
+		case iface:
+			walk(v.v)
+		case sym:
+			i.solver.define(v.t)
+		case sstr:
+			for _, e := range v.b {
+				walk(e)
+			}
+		case []value:
+			for _, e := range v {
+				walk(e)
+			}
+		}
+	}
+	for _, o := range i.ps.observes {
+		walk(o.v)
+	}
 }
 
 func (i *interpreter) observedValues() map[string]string {
